@@ -110,6 +110,9 @@ type Exec struct {
 	ivCache    map[int]ival
 	typeObjs   map[string]*Object
 	hashApps   []hashApp
+	frozen     int
+	frozenMark int
+	wlocks     map[*Object]int
 	varRange   map[string]ival
 	funcs      map[string]bool
 }
@@ -913,6 +916,9 @@ func (x *Exec) checkAccess(p Ptr, size int, what string) {
 	o := p.Obj
 	if o.Ghost != nil && o.Ghost["inpool"] == true && size > 0 {
 		x.check(x.st.False, "assert", what+" on an object that is currently in a sync.Pool (use after Put): "+o.String())
+	}
+	if x.frozen != 0 && size > 0 && o.ID <= x.frozenMark && isWriteAccess(what) {
+		x.frozenWrite(o.String(), what)
 	}
 	if p.Off.IsConst() && o.LSize == nil {
 		off := p.Off.SVal()
